@@ -23,7 +23,24 @@ type obj interface{}
 
 type mInt int
 type mStr string
-type mSym string // a quoted symbol, as produced by (keys m)
+type mSym string // a quoted symbol, as produced by (keys m) or by 'name in a form
+type mFloat float64
+type mBare string // an unquoted symbol: a symbol inside a quoted literal, or a keyword
+
+// via is an operand reached THROUGH a holder: (nth gS i), (get gM 'k),
+// (aref gV i), (first gS) ... possibly nested.  It denotes the element object
+// itself, so an in-place operation on it must show through every holder.
+type pstep struct {
+	idx   int
+	key   string
+	isKey bool
+	acc   int // accessor spelling
+}
+
+type via struct {
+	slot int
+	path []pstep
+}
 
 type backing struct {
 	cells  []obj
@@ -58,10 +75,29 @@ type mMap struct {
 	parents []int
 }
 
+// mArr is a multi-dimensional array.  The language has no constructor for
+// one; an embedding host can bind one (lisp.Array with several dimensions).
+// No sequence builtin accepts it, aref reads its elements, and the elements
+// are references like everywhere else.
+type mArr struct {
+	id    int
+	dims  []int
+	cells []obj
+}
+
+func dimsText(dims []int) string {
+	parts := make([]string, len(dims))
+	for i, d := range dims {
+		parts[i] = strconv.Itoa(d)
+	}
+	return "(" + strings.Join(parts, " ") + ")"
+}
+
 type heap struct {
 	g      [NSlots]obj // nil = unbound
 	nextID int
 	taint  string      // set when this hypothesis follows a known-defect behaviour
+	noArr  bool        // transient: loose operand choices skip multi-dimensional arrays
 	pref   kind        // transient operand preference during resolve (not cloned)
 	direct bool        // transient: operands name slots directly (not cloned)
 	again  map[int]int // transient: raw operand index -> slot forced by Step.Again
@@ -70,6 +106,7 @@ type heap struct {
 // ---------- cloning (sharing-preserving deep copy) ----------
 
 type cloner struct {
+	arrs  map[*mArr]*mArr
 	seqs  map[*mSeq]*mSeq
 	backs map[*backing]*backing
 	byts  map[*mBytes]*mBytes
@@ -77,7 +114,7 @@ type cloner struct {
 }
 
 func (h *heap) clone() *heap {
-	c := &cloner{map[*mSeq]*mSeq{}, map[*backing]*backing{}, map[*mBytes]*mBytes{}, map[*mMap]*mMap{}}
+	c := &cloner{map[*mArr]*mArr{}, map[*mSeq]*mSeq{}, map[*backing]*backing{}, map[*mBytes]*mBytes{}, map[*mMap]*mMap{}}
 	n := &heap{nextID: h.nextID, taint: h.taint}
 	for i, o := range h.g {
 		n.g[i] = c.obj(o)
@@ -94,6 +131,16 @@ func (c *cloner) obj(o obj) obj {
 		r := &mSeq{id: o.id, vec: o.vec, off: o.off, n: o.n, view: o.view, parents: o.parents}
 		c.seqs[o] = r
 		r.b = c.back(o.b)
+		return r
+	case *mArr:
+		if r, ok := c.arrs[o]; ok {
+			return r
+		}
+		r := &mArr{id: o.id, dims: o.dims, cells: make([]obj, len(o.cells))}
+		c.arrs[o] = r
+		for i, x := range o.cells {
+			r.cells[i] = c.obj(x)
+		}
 		return r
 	case *mBytes:
 		if r, ok := c.byts[o]; ok {
@@ -156,6 +203,10 @@ func canonObj(o obj, b *strings.Builder, depth int) {
 		b.WriteString(strconv.Quote(string(o)))
 	case mSym:
 		b.WriteString("'" + string(o))
+	case mBare:
+		b.WriteString(string(o))
+	case mFloat:
+		b.WriteString(strconv.FormatFloat(float64(o), 'g', -1, 64) + "f")
 	case *mSeq:
 		open, cl := "(", ")"
 		if o.vec {
@@ -169,6 +220,15 @@ func canonObj(o obj, b *strings.Builder, depth int) {
 			canonObj(c, b, depth+1)
 		}
 		b.WriteString(cl)
+	case *mArr:
+		b.WriteString("#array<" + dimsText(o.dims) + ">[")
+		for i, c := range o.cells {
+			if i > 0 {
+				b.WriteString(" ")
+			}
+			canonObj(c, b, depth+1)
+		}
+		b.WriteString("]")
 	case *mBytes:
 		b.WriteString(fmt.Sprintf("#bytes%v", o.data))
 	case *mMap:
@@ -210,6 +270,10 @@ func printObj(o obj, b *strings.Builder, depth int) {
 		b.WriteString(strconv.Quote(string(o)))
 	case mSym:
 		b.WriteString("'" + string(o))
+	case mBare:
+		b.WriteString(string(o))
+	case mFloat:
+		b.WriteString(strconv.FormatFloat(float64(o), 'g', -1, 64))
 	case *mSeq:
 		if o.vec {
 			b.WriteString("(vector")
@@ -228,6 +292,8 @@ func printObj(o obj, b *strings.Builder, depth int) {
 			printObj(c, b, depth+1)
 		}
 		b.WriteString(")")
+	case *mArr:
+		b.WriteString("#<array dims=" + dimsText(o.dims) + ">")
 	case *mBytes:
 		b.WriteString("#<bytes")
 		for _, x := range o.data {
@@ -269,7 +335,7 @@ func (h *heap) fingerprint() string {
 		switch o := o.(type) {
 		case nil:
 			b.WriteString("_")
-		case mInt, mStr, mSym:
+		case mInt, mStr, mSym, mBare, mFloat:
 			canonObj(o, &b, 0)
 		case *mSeq:
 			if id, ok := objID[o]; ok {
@@ -290,6 +356,18 @@ func (h *heap) fingerprint() string {
 				b.WriteString("]")
 			}
 			b.WriteString("}")
+		case *mArr:
+			if id, ok := objID[o]; ok {
+				fmt.Fprintf(&b, "@%d", id)
+				return
+			}
+			objID[o] = len(objID)
+			fmt.Fprintf(&b, "A%d%v[", objID[o], o.dims)
+			for _, c := range o.cells {
+				walk(c)
+				b.WriteString(",")
+			}
+			b.WriteString("]")
 		case *mBytes:
 			if id, ok := objID[o]; ok {
 				fmt.Fprintf(&b, "@%d", id)
@@ -338,6 +416,15 @@ func (h *heap) refs() (count map[interface{}]int, order []interface{}) {
 			for _, c := range o.cells() {
 				visit(c)
 			}
+		case *mArr:
+			count[o]++
+			if count[o] > 1 {
+				return
+			}
+			order = append(order, o)
+			for _, c := range o.cells {
+				visit(c)
+			}
 		case *mBytes:
 			count[o]++
 			if count[o] == 1 {
@@ -379,6 +466,12 @@ func reaches(from obj, target obj) bool {
 					return true
 				}
 			}
+		case *mArr:
+			for _, c := range o.cells {
+				if visit(c) {
+					return true
+				}
+			}
 		case *mMap:
 			if seen[o] {
 				return false
@@ -409,6 +502,8 @@ func (h *heap) cyclic() bool {
 		switch o := o.(type) {
 		case *mSeq:
 			kids = o.cells()
+		case *mArr:
+			kids = o.cells
 		case *mMap:
 			for _, e := range o.ents {
 				kids = append(kids, e.v)
@@ -470,6 +565,12 @@ func (h *heap) selfStored() bool {
 						return true
 					}
 				}
+			case *mArr:
+				for _, c := range o.cells {
+					if visit(c) {
+						return true
+					}
+				}
 			case *mMap:
 				if seen[o] {
 					return false
@@ -500,6 +601,8 @@ func objIDOf(o obj) (int, []int, bool) {
 		return o.id, o.parents, true
 	case *mMap:
 		return o.id, o.parents, true
+	case *mArr:
+		return o.id, nil, true
 	}
 	return 0, nil, false
 }
@@ -561,7 +664,7 @@ func (c *chooser) choose() bool {
 // ---------- concrete operations ----------
 
 type carg struct {
-	kind int // 0 int, 1 string, 2 ref (slot), 3 nested list of ints
+	kind int // 0 int, 1 string, 2 ref (slot), 3 nested list of ints, 5 float i+0.5, 6 symbol, 7 keyword
 	i    int
 	s    string
 	l    []int
@@ -579,6 +682,8 @@ type cop struct {
 	op     string
 	dst    int
 	a, b   int // operand slots; -1 when unused
+	via    *via // when set, the principal operand is an ELEMENT reached through a holder
+	dims   []int // array2: the dimensions of the host-built array
 	t      int // 0 list, 1 vector, 2 bytes
 	i, j   int
 	args   []carg
@@ -609,6 +714,15 @@ func (h *heap) argObj(a carg, sealed bool) obj {
 		return mStr(a.s)
 	case 2:
 		return h.g[a.i]
+	case 5:
+		return mFloat(float64(a.i) + 0.5)
+	case 6:
+		if sealed {
+			return mBare(a.s) // a symbol inside a quoted literal is not quoted itself
+		}
+		return mSym(a.s)
+	case 7:
+		return mBare(":" + a.s) // keywords evaluate to themselves
 	default:
 		cells := make([]obj, len(a.l))
 		for i, x := range a.l {
@@ -628,15 +742,20 @@ func (h *heap) argObjs(as []carg) []obj {
 	return out
 }
 
-func sortKey(o obj, keyfn int) int {
-	k := 0
+func sortKey(o obj, keyfn int) float64 {
+	k := 0.0
 	switch x := o.(type) {
 	case mInt:
-		k = int(x)
+		k = float64(x)
+	case mFloat:
+		k = float64(x)
 	case mSym:
-		k = len(x)
+		k = float64(len(x))
+	case mBare:
+		k = float64(len(x))
 	default:
-		k, _ = lenOf(o)
+		n, _ := lenOf(o)
+		k = float64(n)
 	}
 	if keyfn == 2 {
 		return -k
@@ -644,7 +763,7 @@ func sortKey(o obj, keyfn int) int {
 	return k
 }
 
-func lessBy(pred int, a, b int) bool {
+func lessBy(pred int, a, b float64) bool {
 	if pred == 1 {
 		return a > b
 	}
@@ -746,8 +865,46 @@ func (h *heap) operand(slot int) obj {
 	return h.g[slot]
 }
 
+// follow resolves a path operand in THIS heap (every hypothesis agrees on
+// contents and lengths, so the path means the same element in each).
+func (h *heap) follow(v *via) obj {
+	o := h.g[v.slot]
+	for _, p := range v.path {
+		switch x := o.(type) {
+		case *mSeq:
+			if p.isKey || p.idx < 0 || p.idx >= x.n {
+				return nil
+			}
+			o = x.cells()[p.idx]
+		case *mArr:
+			if p.isKey || p.idx < 0 || p.idx >= len(x.cells) {
+				return nil
+			}
+			o = x.cells[p.idx]
+		case *mMap:
+			e, ok := x.ents[p.key]
+			if !p.isKey || !ok {
+				return nil
+			}
+			o = e.v
+		default:
+			return nil
+		}
+	}
+	return o
+}
+
+// opA is the principal operand of c: a name, or an element reached through a
+// holder.
+func (h *heap) opA(c *cop) obj {
+	if c.via != nil {
+		return h.follow(c.via)
+	}
+	return h.operand(c.a)
+}
+
 func (h *heap) applyOp(c *cop, ch *chooser) (obj, bool) {
-	A := h.operand(c.a)
+	A := h.opA(c)
 	B := h.operand(c.b)
 	vec := c.t == 1
 	switch c.op {
@@ -791,6 +948,8 @@ func (h *heap) applyOp(c *cop, ch *chooser) (obj, bool) {
 		return h.newSeq(false, cells), false
 	case "alias":
 		return A, false
+	case "array2":
+		return &mArr{id: h.id(), dims: c.dims, cells: h.argObjs(c.args)}, false
 
 	case "append":
 		if c.t == 2 {
@@ -806,6 +965,9 @@ func (h *heap) applyOp(c *cop, ch *chooser) (obj, bool) {
 				out = append(out, byte(v.(mInt)))
 			}
 			return h.newBytes(out, a), false
+		}
+		if c.t == 3 {
+			return nil, true // append knows 'list, 'vector and 'bytes only
 		}
 		s, ok := asSeq(A)
 		if !ok {
@@ -839,7 +1001,7 @@ func (h *heap) applyOp(c *cop, ch *chooser) (obj, bool) {
 		return h.newBytes(append(append([]byte(nil), a.data...), bs...), a), false
 	case "concat":
 		ops := []obj{A, B}[:c.nops]
-		if c.t == 2 {
+		if c.t >= 2 {
 			var out []byte
 			for _, o := range ops {
 				bs, ok := byteSeq(o)
@@ -847,6 +1009,9 @@ func (h *heap) applyOp(c *cop, ch *chooser) (obj, bool) {
 					return nil, true
 				}
 				out = append(out, bs...)
+			}
+			if c.t == 3 {
+				return mStr(out), false // a string is an immutable atom
 			}
 			return h.newBytes(out, ops...), false
 		}
@@ -985,6 +1150,9 @@ func (h *heap) applyOp(c *cop, ch *chooser) (obj, bool) {
 				if !ok {
 					return nil, true
 				}
+				if c.t == 3 {
+					return mStr(bs), false
+				}
 				return h.newBytes(bs, a), false
 			}
 		default:
@@ -993,6 +1161,9 @@ func (h *heap) applyOp(c *cop, ch *chooser) (obj, bool) {
 				data = y.data[c.i:c.j]
 			} else {
 				data = []byte(A.(mStr))[c.i:c.j]
+			}
+			if c.t == 3 {
+				return mStr(data), false
 			}
 			if c.t == 2 {
 				// A bytes view: its elements can never be written (no
